@@ -50,6 +50,7 @@ struct System {
 	std::function<void()> after_knob;            // recompute what depends on a knob (optional)
 	Z p, q;
 	std::function<std::string(size_t, size_t)> label;   // (atom index, number of atoms) -> stable label
+	std::set<std::string> strict;                 // token labels whose verifier refuses negative values altogether (no tolerated mutant)
 	Z small_order;                                // an element of order dividing k = (p-1)/q, not 1 or p-1 (0: none)
 	std::function<bool(mpz_srcptr, mpz_srcptr)> tol;     // tolerated acceptance? default: negative representative of same residue mod q
 };
@@ -92,7 +93,7 @@ inline bool run_grid(System &S, GridStats &st, std::string *honest_out = 0) {
 			int r = verdict_of(S, sv, t);
 			st.mutants++;
 			if (r == 0) st.rejected++; else if (r == 2) st.thrown++;
-			else if (tol(v, m.val)) st.tolerated_acc++;
+			else if (!S.strict.count(lab(i)) && tol(v, m.val)) st.tolerated_acc++;
 			else { st.fails++; propfail(S.name + "." + lab(i) + "." + ((m.name == "minus2q" || m.name == "minus3q" || m.name == "minusq2k") ? std::string("negfar") : m.name), "verifier accepted the transcript with token #" + std::to_string(i) + " (" + lab(i) + ") changed from " + hx(v) + " to " + hx(m.val) + " [hex]; p=" + hx(S.p) + " q=" + hx(S.q)); }
 		}
 		// swap with the next token
